@@ -165,3 +165,7 @@ package resource
 //@   requires [valid-phase] ph == PhaseRunning || ph == PhaseTearingDown
 //@   ensures [running] ph == PhaseRunning ==> result == "running"
 //@   ensures [tearing-down] ph == PhaseTearingDown ==> result == "tearingDown"
+
+//@ func Equal
+//@   trusted
+//@   pure
